@@ -298,6 +298,69 @@ func chain(base zerolog.Logger, hs []fh, yield bool, tag func(r *http.Request) s
 	return hlog.NewHandler(base)(h)
 }
 
+// accessChain: NewHandler -> AccessHandler(log in the callback) -> URL -> Etag -> ResponseHeader -> final handler
+// that sets per-request response headers and writes a per-request body.
+func accessChain(base zerolog.Logger, yield bool) http.Handler {
+	final := http.HandlerFunc(func(w http.ResponseWriter, r *http.Request) {
+		var i int
+		fmt.Sscanf(r.Header.Get("X-Tag"), "req%d", &i)
+		if yield {
+			mcrt.Point("final")
+		}
+		w.Header().Set("Etag", fmt.Sprintf(`"etag-%d"`, i))
+		w.Header().Set("X-Resp", fmt.Sprintf("resp-%d", i))
+		w.WriteHeader(200 + i)
+		if yield {
+			mcrt.Point("final-body")
+		}
+		w.Write([]byte(strings.Repeat("b", 3+i)))
+	})
+	var h http.Handler = final
+	wrap := func(mw func(http.Handler) http.Handler) {
+		inner := h
+		h = mw(http.HandlerFunc(func(w http.ResponseWriter, r *http.Request) {
+			if yield {
+				mcrt.Point("between-handlers")
+			}
+			inner.ServeHTTP(w, r)
+		}))
+	}
+	wrap(hlog.ResponseHeaderHandler("resp", "X-Resp"))
+	wrap(hlog.EtagHandler("etag"))
+	wrap(hlog.URLHandler("url"))
+	wrap(hlog.AccessHandler(func(r *http.Request, status, size int, d time.Duration) {
+		hlog.FromRequest(r).Info().Str("tag", r.Header.Get("X-Tag")).Int("status", status).Int("size", size).Msg("access")
+	}))
+	return hlog.NewHandler(base)(h)
+}
+
+func checkAccessLines(lines []string, nreq int) []string {
+	var fails []string
+	seen := map[int]int{}
+	for _, l := range lines {
+		root, err := jsonstrict.ParseLine([]byte(l))
+		if err != nil {
+			fails = append(fails, fmt.Sprintf("invalid JSON %q", l))
+			continue
+		}
+		var i int
+		if t := root.Get("tag"); len(t) == 1 {
+			fmt.Sscanf(t[0].Str, "req%d", &i)
+		}
+		seen[i]++
+		want := fmt.Sprintf(`{"level":"info","app":"base","url":"/path%d?q=%d","resp":"resp-%d","etag":"etag-%d","tag":"req%d","status":%d,"size":%d,"message":"access"}`+"\n", i, i, i, i, i, 200+i, 3+i)
+		if l != want {
+			fails = append(fails, fmt.Sprintf("request %d access event %q, want %q", i, l, want))
+		}
+	}
+	for i := 0; i < nreq; i++ {
+		if seen[i] != 1 {
+			fails = append(fails, fmt.Sprintf("request %d: %d access events", i, seen[i]))
+		}
+	}
+	return fails
+}
+
 func expectFields(hs []fh, i int) []string {
 	var out []string
 	for _, h := range hs {
@@ -414,6 +477,21 @@ func isolationSeq(r *seq.Run, tier string) {
 		}
 	}
 	rec(nil)
+	{
+		w := &lineW{}
+		base := zerolog.New(w).With().Str("app", "base").Logger()
+		h := accessChain(base, false)
+		for i := 0; i < 3; i++ {
+			req := reqFor(i)
+			req.Header.Set("X-Tag", fmt.Sprintf("req%d", i))
+			h.ServeHTTP(&nullRW{h: http.Header{}}, req)
+		}
+		fails := checkAccessLines(w.lines, 3)
+		r.Eval(fmt.Sprint("access", w.lines), true)
+		if len(fails) > 0 {
+			r.Violation("", "access-seq", "AccessHandler+URL+Etag+ResponseHeader, three requests in sequence: "+strings.Join(fails, "; "), "access")
+		}
+	}
 	r.Sample("handlers [URL Method RequestID] x requests req0, req1 in sequence -> each event carries its own url/method/req_id; base logger unchanged")
 }
 
@@ -446,6 +524,9 @@ func (c *cinst) Body() {
 	c.base = zerolog.New(c.w).With().Str("app", "base").Logger()
 	hs := pick(c.hsel)
 	h := chain(c.base, hs, true, func(r *http.Request) string { return r.Header.Get("X-Tag") })
+	if len(c.hsel) == 1 && c.hsel[0] == "ACCESS" {
+		h = accessChain(c.base, true)
+	}
 	c.done = make([]bool, c.nreq)
 	c.hdrs = make([]http.Header, c.nreq)
 	for i := 0; i < c.nreq; i++ {
@@ -509,7 +590,11 @@ func (c *cinst) Check(res *mcrt.Result) []explore.Violation {
 	if res.Capped || res.Deadlock || len(res.Panics) > 0 {
 		return vs
 	}
-	for _, f := range checkLines(c.w.lines, pick(c.hsel), c.nreq, c.hdrs) {
+	fails := checkLines(c.w.lines, pick(c.hsel), c.nreq, c.hdrs)
+	if len(c.hsel) == 1 && c.hsel[0] == "ACCESS" {
+		fails = checkAccessLines(c.w.lines, c.nreq)
+	}
+	for _, f := range fails {
 		vs = append(vs, explore.Violation{Prop: "C18", Msg: f})
 		break
 	}
@@ -547,7 +632,7 @@ func main() {
 	r.Count("proxy_histories", r.Evals)
 	isolationSeq(r, tier)
 	var plans []drv.Plan
-	scs := []string{"R2/URL,Method", "R2/RemoteAddr,UserAgent,RequestID", "R2/CustomHeader", "R3/URL", "R2/Host,Referer,Proto", "R3/Method,RequestID"}
+	scs := []string{"R2/ACCESS", "R2/URL,Method", "R2/RemoteAddr,UserAgent,RequestID", "R2/CustomHeader", "R3/URL", "R2/Host,Referer,Proto", "R3/Method,RequestID"}
 	if tier == "thorough" {
 		scs = append(scs, "R3/URL,Method,UserAgent", "R3/RemoteIP,HTTPVersion,HostTrim", "R2/Request,URL,Method")
 	}
